@@ -561,11 +561,14 @@ def _extract_item(unit, out, repo, rel, sel, subs, trel, vacuity, assume_mode=Fa
     if item.kind == "fn":
         from . import rustlex as _rl
         # executable text copied from the repository only (contract payloads and rewritten spans are template text)
-        ctot, cun = _rl.count_closures(" rewritten_span__ ".join(txt for txt, _k, _r in segs if _k == "repo"))
+        repo_text = " rewritten_span__ ".join(txt for txt, _k, _r in segs if _k == "repo")
+        ctot, cun = _rl.count_closures(repo_text)
         unit.functions.append({"name": label, "file": rel, "line": sf.line_of(item.start),
                                "has_spec": has_spec, "external_body": external,
                                "loops_annotated": sum(1 for s in subs if s[0] == "loop"),
-                               "closures": ctot, "closures_unannotated": cun})
+                               "closures": ctot, "closures_unannotated": cun,
+                               # loop-carried locals of the executable text (see rustlex.loop_carried / vf/closures.py)
+                               "loop_carried": _rl.loop_carried(repo_text)})
 
 
 def _lint_ghost(unit, pl, trel, tl):
